@@ -114,6 +114,11 @@ type FuncContract struct {
 	Lemmas   []*Clause
 	Unfold   []Expr // function-level unfold hints (applied at entry and at every return)
 	Reveal   []Expr // applications of opaque specs whose definition is assumed at entry
+	// mode R
+	Rel         bool
+	RelModes    map[string]string
+	RelRequires []*Clause
+	RelEnsures  []*Clause
 }
 
 type LoopContract struct {
@@ -122,6 +127,7 @@ type LoopContract struct {
 	Decreases  []Expr
 	DecClause  *Clause
 	Unfold     []Expr
+	RelInvariants []*Clause
 }
 
 type Contracts struct {
@@ -131,6 +137,8 @@ type Contracts struct {
 	Order []string
 	// global lemmas / ground facts
 	Lemmas []*Clause
+	RelFields map[string]string // "S.f" -> eq | upeq | skip
+	RelFieldSpec map[string]string // "S.f" -> two-argument spec that must hold of (A value, B value) in addition
 }
 
 // ---------------------------------------------------------------- lexer
@@ -611,14 +619,14 @@ func parseModItem(s string) (ModItem, error) {
 	return mi, nil
 }
 
-var clauseKeywords = map[string]bool{"reveal": true, "unfold": true, "defines": true, "justify": true, "requires": true, "ensures": true, "modifies": true, "loop": true, "rank": true, "inline": true, "cost": true, "lemma": true, "trusted": true}
+var clauseKeywords = map[string]bool{"reveal": true, "unfold": true, "defines": true, "justify": true, "requires": true, "ensures": true, "modifies": true, "loop": true, "rank": true, "inline": true, "cost": true, "lemma": true, "trusted": true, "rel": true}
 
 func loadContracts(path string) (*Contracts, error) {
 	data, err := os.ReadFile(path)
 	if err != nil {
 		return nil, err
 	}
-	cs := &Contracts{Specs: map[string]*Spec{}, Funcs: map[string]*FuncContract{}, Ufuns: map[string]*Ufun{}}
+	cs := &Contracts{Specs: map[string]*Spec{}, Funcs: map[string]*FuncContract{}, Ufuns: map[string]*Ufun{}, RelFields: map[string]string{}, RelFieldSpec: map[string]string{}}
 	type rawClause struct {
 		text string
 		line int
@@ -642,7 +650,7 @@ func loadContracts(path string) (*Contracts, error) {
 		if k := strings.IndexAny(bt, " \t"); k >= 0 {
 			first = bt[:k]
 		}
-		if first == "spec" || first == "specrec" || first == "specopaque" || first == "func" || first == "axiom" || first == "ufun" || clauseKeywords[first] {
+		if first == "spec" || first == "specrec" || first == "specopaque" || first == "func" || first == "axiom" || first == "ufun" || first == "relfield" || clauseKeywords[first] {
 			raws = append(raws, rawClause{bt, i + 1})
 		} else {
 			if len(raws) == 0 {
@@ -723,6 +731,16 @@ func loadContracts(path string) (*Contracts, error) {
 			}
 			cs.Funcs[rest] = cur
 			cs.Order = append(cs.Order, rest)
+		case "relfield":
+			f := strings.Fields(rest)
+			if len(f) < 2 || len(f) > 3 || !(f[1] == "eq" || f[1] == "upeq" || f[1] == "skip") {
+				return nil, fail(fmt.Errorf("relfield S.f eq|upeq|skip [spec]"))
+			}
+			cs.RelFields[f[0]] = f[1]
+			if len(f) == 3 {
+				cs.RelFieldSpec[f[0]] = f[2]
+			}
+			cur = nil
 		case "axiom":
 			return nil, fail(fmt.Errorf("axiom clauses are not allowed"))
 		default:
@@ -730,6 +748,41 @@ func loadContracts(path string) (*Contracts, error) {
 				return nil, fail(fmt.Errorf("clause outside func block"))
 			}
 			switch first {
+			case "rel":
+				// rel on | rel upeq a, b | rel eq a | rel skip a | rel requires E | rel ensures E
+				cur.Rel = true
+				if cur.RelModes == nil {
+					cur.RelModes = map[string]string{}
+				}
+				kw := rest
+				body := ""
+				if k := strings.IndexAny(rest, " \t"); k >= 0 {
+					kw = rest[:k]
+					body = strings.TrimSpace(rest[k:])
+				}
+				switch kw {
+				case "on":
+				case "upeq", "eq", "skip":
+					for _, n := range strings.Split(body, ",") {
+						if n = strings.TrimSpace(n); n != "" {
+							cur.RelModes[n] = kw
+						}
+					}
+				case "requires", "ensures":
+					tags, label, ex := parseTagsLabel(body)
+					e, err := parseExprString(ex)
+					if err != nil {
+						return nil, fail(err)
+					}
+					cl := &Clause{Kind: "rel " + kw, Tags: tags, Label: label, E: e, Line: rc.line, Text: ex}
+					if kw == "requires" {
+						cur.RelRequires = append(cur.RelRequires, cl)
+					} else {
+						cur.RelEnsures = append(cur.RelEnsures, cl)
+					}
+				default:
+					return nil, fail(fmt.Errorf("unknown rel clause %q", kw))
+				}
 			case "inline":
 				cur.Inline = true
 			case "trusted":
@@ -836,6 +889,14 @@ func loadContracts(path string) (*Contracts, error) {
 					}
 					lc.Decreases = es
 					lc.DecClause = &Clause{Kind: "decreases", Tags: tags, Label: label, Es: es, Loop: n, Line: rc.line, Text: ex}
+				case "rel":
+					body = strings.TrimSpace(strings.TrimPrefix(body, "invariant"))
+					tags, label, ex := parseTagsLabel(body)
+					e, err := parseExprString(ex)
+					if err != nil {
+						return nil, fail(err)
+					}
+					lc.RelInvariants = append(lc.RelInvariants, &Clause{Kind: "rel invariant", Tags: tags, Label: label, E: e, Loop: n, Line: rc.line, Text: ex})
 				case "unfold":
 					e, err := parseExprString(body)
 					if err != nil {
